@@ -30,7 +30,7 @@ Matches(ev) ==
     ELSE LET r == Apply(c, s) IN
          /\ ev.ok = r.ok
          /\ ev.after = r.s
-         /\ (c[1] \in {"contains", "len"} => ev.ret = r.ret)
+         /\ (c[1] \in {"contains", "len", "issubset", "issuperset"} => ev.ret = r.ret)
          /\ (r.rset # NONE => IF r.rord THEN ev.rset = r.rset ELSE SameSet(ev.rset, r.rset))
 
 TStep ==
